@@ -342,6 +342,8 @@ def h_r3(p: Project, rep: Report):
     src = params_of(fn)[0]
     cfg = CFG(fn)
     reach = Reaching(cfg)
+    defs = local_defs(fn)
+    msgs = [s_ for s_ in own_statements(fn) if isinstance(s_, ast.Assign) and text(s_.targets[0]) == "message"]
     rep.rule("H-R3", "v2: the whole source is re-read from the start, decoded with OFXHeaderV2.codec, searched by OFXHeaderV2.parse and the body is the slice of that same string from the match end")
     ds = [s for s in own_statements(fn) if isinstance(s, ast.Assign) and text(s.targets[0]) == "decoded_source"]
     ok = bool(ds) and all(text(s.value) == f"{src}.read().decode(OFXHeaderV2.codec)" for s in ds)
